@@ -198,8 +198,9 @@ class Campaign:
         if sample and execs:
             self.chk.sample({origin: execs[len(execs) // 2][:14]})
         self.chk.lap("%s: %d executions run, %d events" % (origin, len(execs), sum(len(e) for (_l, e) in pairs)))
-        if sum(len(p[1]) for p in self.pending) > 60000:
-            self.flush()
+        died = sum(1 for (_l, e) in pairs if e and ('"op":"crash"' in e[-1] or '"op":"hang"' in e[-1]))
+        if died >= 3 or sum(len(p[1]) for p in self.pending) > 60000:
+            self.flush()            # crashes / hangs are rejections: judge them now so that enough() can stop the campaign early
 
     def flush(self):
         if not self.pending:
